@@ -118,7 +118,7 @@ var Alphabet = []Val{
 	fv("0.5"), fv("-0.5"), fv("2.5"), fv("1e308"), fv("-1e308"), fv("5e-324"), fv("1e19"), fv("nan"), fv("inf"), fv("-inf"), fv("-0"),
 	sv(""), sv(" "), sv("a"), sv("abc"), sv("é"), nsv("badutf8", "a\xffb"), nsv("nul", "a\x00b"), sv("日本語"), sv("a b c"), sv("1"), sv("-1"), sv("1.5"), sv("1e400"),
 	sv("2012-01-31"), sv("2012-02-30"), sv("2012-01-31 23:59:59.999999999"), sv("0000-00-00"), sv("9999-12-31 23:59:59"),
-	sv("%"), sv("%s"), sv("%5d"), sv("%-05.3f|%q|%T|%i"), sv("%1000000s"), sv("%Y-%m-%d %H:%i:%s.%N %%"), sv("%*d"),
+	sv("%"), sv("%s"), sv("%5d"), sv("%-05.3f|%q|%T|%i"), sv("%1000000s"), sv("%Y-%m-%d %H:%i:%s.%N %%"), sv("%*d"), sv("%.3s"), sv("%.9T"),
 	sv("("), sv("["), sv("(a)(b)?"), sv("^$"), sv("a.b["), sv("a[0].b"), sv(`{"a":[1,{"b":null}]}`), sv("[1,2"), sv("[1,2]"),
 	sv("LEN"), sv("BYTE"), sv("WIDTH"), sv("SJIS"), sv("UTF16"), sv("AUTO"), sv("i"), sv(","),
 	{Name: "b:true", Kind: 'b', I: 1}, {Name: "b:false", Kind: 'b'},
